@@ -113,6 +113,30 @@ func vfCompressCfg(enable bool, threshold uint32) *config {
 	return cfg
 }
 
+// vfReconfigure applies a configuration update the way the processor does (OnSvcConfigUpdate ->
+// config.Update with a new service.Config object): filters created earlier must follow it.
+func vfReconfigure(cfg *config, enable bool, threshold uint32) {
+	n := vfCompressCfg(enable, threshold)
+	cfg.Update(n.Raw())
+}
+
+// vfStartCfg is the configuration a connection (and its filter) may have been created under,
+// before the configuration the harness then switches to: no protocol options at all, options
+// without a compression section, compression off, or compression on.
+func vfStartCfg() *config {
+	switch nd.Concrete(nd.IntRange("start-config", 0, 3)) {
+	case 0:
+		return vfConfig()
+	case 1:
+		cfg := vfConfig()
+		cfg.ProtocolOptions = &service.Config_RedisOption{RedisOption: &protocol.RedisOption{}}
+		return cfg
+	case 2:
+		return vfCompressCfg(false, 7)
+	}
+	return vfCompressCfg(true, 1)
+}
+
 var vfHdr = []byte{'(', 'P', '$', 0, '\r', '\n'}
 
 // vfIsFrameOf: b == header ‖ C(orig) for a stream the stub produced from orig.
@@ -214,7 +238,9 @@ func VfC13_Write() {
 func VfC13_ReadBack() {
 	vfInstallStub()
 	threshold := uint32(nd.IntRange("threshold", 1, 40))
-	cfg := vfCompressCfg(true, threshold)
+	cfg := vfStartCfg()
+	f := newCompressFilter(cfg) // the connection's filter exists before compression is configured
+	vfReconfigure(cfg, true, threshold)
 	vlen := vfLens[nd.Concrete(nd.Choice("vlen", len(vfLens)))]
 	v := nd.Bytes("v", vlen)
 	if vlen >= 3 {
@@ -222,7 +248,6 @@ func VfC13_ReadBack() {
 	}
 	orig := append([]byte(nil), v...)
 	wr := newSimpleRequest(newArray(*newBulkString("set"), *newBulkString("k"), *newBulkBytes(v)))
-	f := newCompressFilter(cfg)
 	nd.PanicLabel("compress-filter")
 	passes := nd.Concrete(nd.IntRange("passes", 1, nd.Param("passes", 2))) // 2 = the write was redirected and filtered again
 	for p := 0; p < passes; p++ {
@@ -231,7 +256,11 @@ func VfC13_ReadBack() {
 	stored := append([]byte(nil), wr.Body().Array[2].Text...)
 	nd.Class("second-pass-reframes", passes == 2)
 	if nd.Bool("disable") {
-		cfg.GetRedisOption().Compression.Enable = false
+		if nd.Bool("by-update") {
+			vfReconfigure(cfg, false, threshold)
+		} else {
+			cfg.GetRedisOption().Compression.Enable = false
+		}
 	}
 	rd := newSimpleRequest(newArray(*newBulkString("get"), *newBulkString("k")))
 	f.Do("get", rd)
@@ -315,10 +344,11 @@ func VfC13_Banned() {
 		name[i] -= 32 * (nd.Byte("upper") & 1)
 	}
 	enable := nd.Bool("enable")
-	cfg := vfCompressCfg(enable, 1)
+	cfg := vfStartCfg() // what the connection was created under
 	req := newSimpleRequest(newArray(*newBulkBytes(name), *newBulkString("k"), *newBulkString("1"), *newBulkString("v")))
 	chain := newRequestFilterChain()
 	chain.AddFilter(newCompressFilter(cfg))
+	vfReconfigure(cfg, enable, 1) // the configuration in force when the command arrives
 	nd.PanicLabel("compress-filter")
 	st := chain.Do(req)
 	if enable {
